@@ -11,7 +11,8 @@
 EXTENDS Affinity, TLC, Json
 CONSTANTS BufPairs,     \* set of <<tb, fb>> in ticks, both > 0 (powers of two: exact factors)
           Offsets,      \* sequence of shift offsets, Offsets[1] = 0
-          Stride        \* take every Stride-th pair (1 = all)
+          Stride,       \* take every Stride-th pair (1 = all)
+          FarBases      \* far sessions: origins as exponents E of 2^E s (0 = no origin); FarBases[1] is where Self / TimeOnly / Sym are observed
 VARIABLES c, pc, p1, p2, res
 
 \* values for the cfg files (a cfg cannot write tuples)
@@ -19,6 +20,8 @@ QuickBufs == {<<1, 1>>, <<2, 1>>}
 QuickOffsets == <<0, 3>>
 ThoroughBufs == {<<1, 1>>, <<2, 1>>, <<1, 2>>, <<4, 2>>, <<2, 4>>}
 ThoroughOffsets == <<0, 3, 5>>
+QuickFarBases == <<27, 0, 22>>
+ThoroughFarBases == <<27, 0, 22, 18, 25>>
 
 Cat == Catalogue(FMAXT) \o <<
   G("LineString", <<<<3, 1>>, <<3, 4>>>>),                       \* vertical segment
@@ -30,8 +33,22 @@ Cat == Catalogue(FMAXT) \o <<
 
 Pairs == {<<i, j>> \in (1..Len(Cat)) \X (1..Len(Cat)) : i <= j /\ (i * Len(Cat) + j) % Stride = 0}
 Bufs(i, j) == BufPairs \cup (IF Cat[i].type \in AreaKinds /\ Cat[j].type \in AreaKinds THEN {<<0, 0>>} ELSE {})
-Cases == {[i |-> p[1], j |-> p[2], tb |-> b[1], fb |-> b[2]] : p \in Pairs, b \in BufPairs \cup {<<0, 0>>}}
-Concrete(k) == [kind |-> "lat", g1 |-> Cat[k.i], g2 |-> Cat[k.j], tb |-> k.tb, fb |-> k.fb, ds |-> Offsets]
+Cases == {[far |-> FALSE, i |-> p[1], j |-> p[2], tb |-> b[1], fb |-> b[2]] : p \in Pairs, b \in BufPairs \cup {<<0, 0>>}}
+\* "far" sessions: the same catalogue in ticks of 2^-10 s, FarPad ticks after an origin of 2^E s (FarBases, 0 = none):
+\* short events far along the time axis.  Only pairs whose result is a closed form (time-only or two boxes) and whose
+\* extents are exact, so that every clause stays exact; the common shift is the change of origin.
+FarPad == 16
+FarOk(i) == ClosedExtent(Cat[i])
+FarCases == {[far |-> TRUE, i |-> p[1], j |-> p[2], tb |-> b[1], fb |-> b[2]] :
+                p \in {q \in Pairs : FarOk(q[1]) /\ FarOk(q[2]) /\
+                                      (TimeOnlyPair(Cat[q[1]].type, Cat[q[2]].type) \/ BoxPair(Cat[q[1]].type, Cat[q[2]].type))},
+                b \in BufPairs}
+GA(k) == IF k.far THEN Shift(Cat[k.i], FarPad) ELSE Cat[k.i]
+GB(k) == IF k.far THEN Shift(Cat[k.j], FarPad) ELSE Cat[k.j]
+Concrete(k) == IF k.far
+               THEN [kind |-> "far", g1 |-> GA(k), g2 |-> GB(k), tb |-> k.tb, fb |-> k.fb,
+                     ds |-> [x \in DOMAIN FarBases |-> 0], bases |-> FarBases]
+               ELSE [kind |-> "lat", g1 |-> Cat[k.i], g2 |-> Cat[k.j], tb |-> k.tb, fb |-> k.fb, ds |-> Offsets]
 
 (* ---- Impl: the dispatch of compute_affinity ---- *)
 \* _prepare_geometry: BUFFER_GEOMETRY_TYPES are buffered (TimeStamp -> TimeInterval, the others -> (Multi)Polygon)
@@ -45,10 +62,10 @@ ImplTimeTypes == {"TimeStamp", "TimeInterval"}
 Guard(iu) == IF iu[2] = 0 THEN <<0, 1>> ELSE iu
 Opaque == <<-1, 1>>            \* an area ratio computed by shapely: not predicted by the model
 
-Init == /\ c \in {k \in Cases : <<k.tb, k.fb>> \in Bufs(k.i, k.j)}
+Init == /\ c \in {k \in Cases : <<k.tb, k.fb>> \in Bufs(k.i, k.j)} \cup FarCases
         /\ pc = "prep1" /\ p1 = <<>> /\ p2 = <<>> /\ res = <<>>
-Prep1 == pc = "prep1" /\ p1' = Prepare(Cat[c.i], c.tb) /\ pc' = "prep2" /\ UNCHANGED <<c, p2, res>>
-Prep2 == pc = "prep2" /\ p2' = Prepare(Cat[c.j], c.tb) /\ pc' = "branch" /\ UNCHANGED <<c, p1, res>>
+Prep1 == pc = "prep1" /\ p1' = Prepare(GA(c), c.tb) /\ pc' = "prep2" /\ UNCHANGED <<c, p2, res>>
+Prep2 == pc = "prep2" /\ p2' = Prepare(GB(c), c.tb) /\ pc' = "branch" /\ UNCHANGED <<c, p1, res>>
 Branch == /\ pc = "branch"
           /\ pc' = IF p1.type \in ImplTimeTypes \/ p2.type \in ImplTimeTypes THEN "time" ELSE "area"
           /\ UNCHANGED <<c, p1, p2, res>>
@@ -67,8 +84,8 @@ Spec == Init /\ [][Next]_vars /\ WF_vars(Next)
 Export == pc = "prep1" => PrintT(<<"CASE", ToJson(Concrete(c))>>)
 
 (* ---- Impl against Req ---- *)
-g1 == Cat[c.i]
-g2 == Cat[c.j]
+g1 == GA(c)
+g2 == GB(c)
 Closed == ClosedExtent(g1) /\ ClosedExtent(g2)
 ImplTimeOnly == (pc = "done" /\ TimeOnlyPair(g1.type, g2.type)) =>
     LET iu == TimeIoU(PExt(g1, c.tb, 0), PExt(g2, c.tb, 0))          \* the implementation follows reading 0
@@ -94,6 +111,11 @@ LawDisjoint == \A r \in Readings :
         /\ (TimeIoU(x, y)[1] = 0 /\ x[1] < x[2] /\ y[1] < y[2]) => (x[2] <= y[1] \/ y[2] <= x[1])
 LawShift == \A r \in Readings, d \in Ds :                          \* growth is clipped at 0 only: away from 0 extents move rigidly
     (PExt(g1, c.tb, r)[1] > 0 /\ PExt(g2, c.tb, r)[1] > 0) => TIoU(g1, g2, d, r) = TIoU(g1, g2, 0, r)
+\* far sessions: no growth is clipped (FarPad > every buffer), so the value does not depend on the origin
+LawOriginFree == c.far => \A r \in Readings, d \in {1, 7, 1000, 1000000} :
+    /\ PExt(g1, c.tb, r)[1] > 0 /\ PExt(g2, c.tb, r)[1] > 0
+    /\ TIoU(g1, g2, d, r) = TIoU(g1, g2, 0, r)
+    /\ BoxPair(g1.type, g2.type) => BoxIoU(Shift(g1, d).coordinates, Shift(g2, d).coordinates) = BoxIoU(g1.coordinates, g2.coordinates)
 BoxLaws == BoxPair(g1.type, g2.type) =>
     LET a == g1.coordinates  b == g2.coordinates  iu == BoxIoU(a, b) IN
     /\ 0 <= iu[1] /\ iu[1] <= iu[2] /\ iu = BoxIoU(b, a)
